@@ -392,13 +392,17 @@ class QasmOutput:
             if len(op.qubits) not in [1, 2]:
                 return NotImplemented
 
-            mat = protocols.unitary(op, None)
+            # Classical controls are carried over to the matrix-based replacement.
+            controls = op.classical_controls
+            mat = protocols.unitary(op.without_classical_controls(), None)
             if mat is None:
                 return NotImplemented
 
             if len(op.qubits) == 1:
-                return QasmUGate.from_matrix(mat).on(*op.qubits)  # pragma: no cover
-            return QasmTwoQubitGate.from_matrix(mat).on(*op.qubits)
+                new_op = QasmUGate.from_matrix(mat).on(*op.qubits)  # pragma: no cover
+            else:
+                new_op = QasmTwoQubitGate.from_matrix(mat).on(*op.qubits)
+            return new_op.with_classical_controls(*controls) if controls else new_op
 
         def on_stuck(bad_op):
             return ValueError(f'Cannot output operation as QASM: {bad_op!r}')
